@@ -1,0 +1,15 @@
+//go:build verif
+
+// Contracts for contract-based deductive verification (see /verif/DESIGN.md).
+// Comment-only file: it contributes no code to any build.
+
+package message
+
+// reqid(m) is the request id carried by a request/response message.
+//@ ghost func reqid(Request) uint32
+
+//@ iface Request.GetRequestID
+//@   props C06
+//@   requires self != nil
+//@   modifies nothing
+//@   ensures result == reqid(self)
